@@ -70,6 +70,12 @@ def impl_name(s):
     except Exception as exc:
         return 'err ' + type(exc).__name__
 
+def impl_munch(s):
+    try:
+        return 'ok ' + hexs(L()._munch_language_name(s))
+    except Exception as exc:
+        return 'err ' + type(exc).__name__
+
 def impl_normpath(s):
     return 'ok ' + hexs(os.path.normpath(s))
 
@@ -191,8 +197,7 @@ def hexlist(xs):
 
 def check_line(case):
     template, opt, path, metas, pls, pcs = case
-    strings = sorted(set(metas) | set(pls))
-    table = ','.join(f'{hexs(s)}={hexs(ref_munch(s))}' for s in strings) if strings else '~'
+    table = '*'      # the model munches the names itself (Locale.munchName)
     return f'locale check {1 if template else 0} {hexo(opt)} {hexs(path)} {hexlist(metas)} {hexlist(pls)} {hexlist(pcs)} {table}'
 
 # ------------------------------------------------------------------ independent reference
@@ -538,6 +543,21 @@ def prop_name(name):
         return rep
     if got != want:
         rep.update(kind='language-name', observed=repr(got), expected=repr(want) + ' (None = LookupError)', key='language-name:' + name[:60])
+        return rep
+    return None
+
+def prop_munch(s):
+    """language names are compared after normalising whitespace, capitalisation and accent marks (as the comments of
+    `_munch_language_name` say), computed here with str.split/lower and unicodedata directly"""
+    rep = {'input': _short(s), 'input_hex': hexs(s) if len(s) < 400 else None,
+           'replay': f'from lib import ling; print(repr(ling._munch_language_name({s!r})))'}
+    try:
+        got = L()._munch_language_name(s)
+    except Exception as exc:
+        rep.update(kind='munch-crash', observed=f'{type(exc).__name__}: {exc}'[:200], expected=repr(ref_munch(s)), key='munch-crash:' + s[:40])
+        return rep
+    if got != ref_munch(s):
+        rep.update(kind='name-normalisation', observed=repr(got), expected=repr(ref_munch(s)), key='munch:' + s[:40])
         return rep
     return None
 
